@@ -114,7 +114,10 @@ class SemVer:
                             vec.append(0)
                         vec.append(-1)
                         pre = True
-                    vec.append(ident)
+                    # A numeric identifier directly after the ``-`` marker is
+                    # matched by the identifier alternative of the regex, but
+                    # it must still compare numerically (SemVer 11.4.1).
+                    vec.append(int(ident) if ident.isdigit() else ident)
                 else:
                     break  # +build metadata: discard the rest
         else:
